@@ -107,7 +107,7 @@ def _gtf_text_styled(world, style):
             tattr = 'gene_id "%s"; transcript_id "%s";' % (g["id"], t["id"])
             if style == "ensembl":
                 tattr = gattr + ' transcript_id "%s"; transcript_version "1"; transcript_name "%s-201"; transcript_biotype "protein_coding"; tag "basic";' % (t["id"], t["id"])
-            glines.append((1 + ti * 100, "\t".join([g["chr"], src, "transcript", str(t["exons"][0][0]), str(t["exons"][-1][1]), ".", strand, ".", tattr])))
+            glines.append((1 + ti * 100, "\t".join([g["chr"], src, "mRNA" if style == "mrna" else "transcript", str(t["exons"][0][0]), str(t["exons"][-1][1]), ".", strand, ".", tattr])))
             exons = list(t["exons"])
             order = list(reversed(exons)) if (style == "ensembl" and strand == "-") else exons
             for i, (s, e) in enumerate(order):
